@@ -427,9 +427,11 @@ def run_case(case):
         if algo in zoo.MULTI and case["seed"] % 2:
             kw["agent_ids"] = ["agent_0", "other_0", "agent_1"]  # groups interleaved
         pop = [zoo.make_agent(algo, case["obs"], index=i, hp_config=shared_cfg, **kw) for i in range(case["pop"])]
-        if case.get("wrapped") and algo in zoo.SINGLE and algo not in ("NeuralUCB", "NeuralTS") and case["obs"] in ("vector", "image"):
+        if case.get("wrapped") and algo in ("DQN", "RainbowDQN", "CQN", "DDPG", "TD3") and case["obs"] in ("vector", "image"):
             # a population of AgentWrapper-wrapped agents (observation normalisation): selection and mutation then go
-            # through the wrapper's clone() / attribute forwarding
+            # through the wrapper's clone() / attribute forwarding. Only the off-policy learners on vector / image
+            # observations: RSNorm.learn() takes replay-buffer experiences (it cannot take PPO rollouts or bandit batches and
+            # does not normalise Tuple observations) - limits of the wrapper, not of mutations
             from agilerl.wrappers.agent import RSNorm
 
             pop = [RSNorm(a) for a in pop]
